@@ -28,7 +28,10 @@ RULE = ("one run = a history of proposals (distinct priorities, 1-6 actors, repl
         "every step whose live set is conflict-free (running intersection of system bounds and higher-priority bounds minus "
         "the exclusion zone never empty) the three clauses are evaluated (the target both as the bounds tracker sees it - recalculation without proposal, then get_target_power - and with must_return_power), probing x on every interval end point +-1 W; "
         "non-trivial = conflict-free step with >= 2 live proposals of which a higher-priority one sets bounds; distinct = "
-        "abstract digest of the operation sequence")
+        "abstract digest of the operation sequence"
+        " Values also carry binary fractions of a watt; two actors may share a priority (bounds only); the actor"
+        " variant runs for battery / EV-charger / PV pools, may propose through"
+        " BatteryPool.propose_power/charge/discharge and lets the probe actor withdraw.")
 QUICK_RUNS = 6000
 THOROUGH_RUNS = 400_000
 EXPECT_PROBES = ["conflict_free_step", "conflicting_step_skipped", "higher_priority_bounds_bind", "pref_inside_exclusion_zone",
